@@ -2,7 +2,7 @@
    The closure is evaluated on the implementation on every run (trace, then serialize the same
    samples with the traced schema, then decode = interp inside Coq: the C01 oracle); the tracer
    model is compared with the crate in the C07 run. *)
-From Verif Require Import Tracer Coerce Coerce_proofs Accept Accept_proofs CoerceTable CoerceTable_proofs TracerTablesSpec Null_proofs.
+From Verif Require Import Tracer Coerce Coerce_proofs Accept Accept_proofs CoerceTable CoerceTable_proofs TracerTablesSpec Null_proofs Struct_proofs.
 
 (* Full-strength statement (kept visible); Excluded = the three documented exclusions *)
 Definition C06_full (accepts : list SField -> list Value -> Prop) (Excluded : Opts -> list Value -> Prop) : Prop :=
@@ -52,7 +52,28 @@ Theorem C06_null_makes_nullable_nested : forall o d l1 l2 t t',
   trace_seq' o d (l1 ++ VNone :: l2) (Ok t) = Ok t' -> t_nullable t' = true.
 Proof. exact null_makes_nullable. Qed.
 
+(* fields missing in some samples are traced as nullable - end to end, for nested shapes: if some record sample of the collection
+   does not mention k, then every field called k of the final record tracer is nullable; whatever the other samples are (records
+   with any nested content, records presented as maps, nulls, Some(..) wrappers), wherever the sample stands in the order, and
+   whether k was first seen before it (the end-of-record step marks it) or after it (a field first seen in a later sample starts
+   nullable); and nullability, once recorded, is never lost *)
+Theorem C06_missing_field_is_nullable_nested : forall o d pre fa post n0 n m s fs k,
+  ~ In k (map fst fa) ->
+  trace_seq' o d (pre ++ VStruct fa :: post) (Ok (TUnknown n0)) = Ok (TStruct n m s fs) ->
+  forall f, In f fs -> fname3 f = k -> t_nullable (ftr3 f) = true.
+Proof. exact missing_field_is_nullable. Qed.
+
+Theorem C06_nullable_is_never_lost : forall o d v t t', t_nullable t = true -> trace o d v t = Ok t' -> t_nullable t' = true.
+Proof. exact nullable_monotone. Qed.
+
+(* non-vacuity: the field b is missing in the second sample and first seen in the third *)
+Example C06_missing_field_example :
+  exists n m s fs, trace_seq' default_opts 0 [VStruct [(b "a", VInt I32 1)]; VStruct [(b "a", VInt I32 2); (b "c", VSeq [VBool true])]; VStruct [(b "a", VInt I32 3); (b "b", VStr (b "x")); (b "c", VSeq [])]]
+                   (Ok (TUnknown false)) = Ok (TStruct n m s fs) /\ map (fun f => (fname3 f, t_nullable (ftr3 f))) fs = [(b "a", false); (b "c", true); (b "b", true)].
+Proof. do 4 eexists. vm_compute. split; reflexivity. Qed.
+
 Print Assumptions C06_leaf_accepts_partial.
 Print Assumptions C06_leaf_null_nullable_partial.
 Print Assumptions C06_coerce_arms_match_model.
 Print Assumptions C06_null_makes_nullable_nested.
+Print Assumptions C06_missing_field_is_nullable_nested.
